@@ -112,6 +112,7 @@ SCCleanup(S, isolates, connected, relabel) ==
 (* ---- dispatcher -------------------------------------------------------------------------- *)
 SCStructuralOps ==
   {"add_node", "add_nodes_from", "remove_node", "remove_nodes_from", "add_simplex", "add_simplices_from",
+   "add_weighted_simplices_from", "add_weighted_edges_from",
    "remove_simplex_id", "remove_simplex_ids_from", "close", "cleanup", "clear", "add_edge",
    "add_edges_from", "remove_edge", "remove_edges_from", "convert_labels_to_integers",
    "largest_connected_hypergraph"}
@@ -129,6 +130,11 @@ SCUnfrozen(S, op, ord, ford) ==
     [] op.name = "add_simplex" -> AddSimplex(S, op.m, ~op.b3, op.id, AttrOf(op.a), ord, ford)
     [] op.name = "add_simplices_from" ->
          AddSimplicesFrom(S, op.fmt, op.items, op.n2, AttrOf(op.a), ord, ford)
+    \* weighted: format 3 with the weight stored under key k
+    [] op.name \in {"add_weighted_simplices_from", "add_weighted_edges_from"} ->
+         LET its == [q \in DOMAIN op.items |-> [op.items[q] EXCEPT !.a = << <<op.k, op.items[q].w>> >>]]
+             outs == AddSimplicesFrom(S, 3, its, op.n2, AttrOf(op.a), ord, ford)
+         IN IF op.name = "add_weighted_edges_from" THEN Deprecated(outs) ELSE outs
     [] op.name = "remove_simplex_id" -> {RemoveSimplexId(S, op.e)}
     [] op.name = "remove_simplex_ids_from" -> RemoveSimplexIdsFrom(S, op.ns)
     [] op.name = "close" -> {Close(S, ford)}
@@ -152,8 +158,9 @@ SCOutcomes(S, op, ord, ford) ==
     ELSE SCUnfrozen(S, op, ord, ford)
 
 SCUnspecified(S, op) ==
-  op.name \in {"add_simplices_from", "add_edges_from"} /\
-    BulkNoneUnspecified(op.fmt, op.items, IF op.name = "add_edges_from" THEN None ELSE op.n2)
+  op.name \in {"add_simplices_from", "add_edges_from", "add_weighted_simplices_from", "add_weighted_edges_from"} /\
+    BulkNoneUnspecified(IF op.name \in {"add_weighted_simplices_from", "add_weighted_edges_from"} THEN 3 ELSE op.fmt,
+                        op.items, IF op.name = "add_edges_from" THEN None ELSE op.n2)
 
 (* ---- action properties ---------------------------------------------------------------------- *)
 \* remove_simplex_id(i) removes exactly i and the simplices that strictly contain it
@@ -163,5 +170,6 @@ RemoveExact(S, e, T) ==
 \* simplices created by an add with max_order = k have at most k+1 nodes
 MaxOrderRespected(S, k, T) ==
   k # None => \A e \in EdgeSet(T) \ EdgeSet(S) : Cardinality(T.e2n[e]) <= k + 1
-SCAddOps == {"add_simplex", "add_simplices_from", "add_edge", "add_edges_from", "close"}
+SCAddOps == {"add_simplex", "add_simplices_from", "add_edge", "add_edges_from", "close",
+             "add_weighted_simplices_from", "add_weighted_edges_from"}
 =============================================================================
